@@ -161,6 +161,23 @@ pub fn replay(path: &str) -> ! {
 			}
 		},
 		"pagemc" => c19::replay(&j),
+		"loommc-trace" => {
+			let t = crate::tracejudge::parse(&j).unwrap_or_else(|e| machinery_error(&format!("bad trace file: {}", e)));
+			let mut st = crate::crashmc::CrashStats::default();
+			let r = crate::tracejudge::judge(&t, &mut st);
+			cleanup_scratch();
+			match r {
+				Ok(()) => {
+					println!("replay: {} crash points, {} images of the recorded schedule recovered, every oracle check passed", st.crash_points, st.distinct_images);
+					std::process::exit(0)
+				},
+				Err(f) => {
+					println!("replay: {}: {}", f.kind, f.msg);
+					println!("VIOLATION property={} replay={}", t.property, path);
+					std::process::exit(1)
+				},
+			}
+		},
 		e => machinery_error(&format!("unknown engine {} in replay file", e)),
 	}
 }
